@@ -38,11 +38,21 @@ type Order struct {
 	Meta  map[string]string `json:"meta"`
 }
 
-func (Order) StateTypeName() string { return "order" }
+// a namespaced entity type name: it contains the separator itself
+const orderType = "shop/order"
+
+func (Order) StateTypeName() string { return orderType }
 
 type Ghost struct{ X int } // never registered
 
-var keys = []string{"1", "user/1", "a/b/c", "ключ", " ", "order/1", "a//b/c", "./1", "a/b/c/", "..", "c18.User/1"}
+// UserNext is what a producer that was upgraded first sends: the same entity with a field the
+// consumer's struct does not know yet.
+type UserNext struct {
+	User
+	AddedLater int `json:"added_later"`
+}
+
+var keys = []string{"1", "user/1", "a/b/c", "ключ", " ", "order/1", "shop/order/1", "a//b/c", "./1", "a/b/c/", "..", "c18.User/1"}
 
 type msgSpec struct {
 	Kind string `json:"kind"` // insert update update-old delete delete-old reset snap-start snap-end bad-value
@@ -133,6 +143,8 @@ func build(s msgSpec) (any, error) {
 		return nil, fmt.Errorf("bad spec %+v", s)
 	}
 	switch s.Kind {
+	case "insert-newer":
+		return state.Insert(s.Key, UserNext{User: s.Val.(User), AddedLater: 7}, state.WithEntityType(state.EntityType(User{})))
 	case "insert", "update", "update-old", "delete-old":
 		return mk(s.Kind, s.Val)
 	case "delete":
@@ -180,6 +192,8 @@ func gen(r *rand.Rand) []msgSpec {
 			val = Ghost{X: r.IntN(9)}
 		}
 		switch x := r.IntN(40); {
+		case x < 12 && ent == "user" && r.IntN(3) == 0:
+			l = append(l, msgSpec{Kind: "insert-newer", Ent: ent, Key: key, Val: val})
 		case x < 12:
 			l = append(l, msgSpec{Kind: "insert", Ent: ent, Key: key, Val: val})
 		case x < 22:
@@ -244,9 +258,9 @@ func (m *model) apply(s msgSpec, off ebu.Offset, strict bool) (ok bool) {
 			}
 			break
 		}
-		ck := map[string]string{"user": state.EntityType(User{}), "product": state.EntityType(Product{}), "order": "order"}[s.Ent] + "/" + s.Key
+		ck := map[string]string{"user": state.EntityType(User{}), "product": state.EntityType(Product{}), "order": orderType}[s.Ent] + "/" + s.Key
 		switch s.Kind {
-		case "insert", "update", "update-old":
+		case "insert", "update", "update-old", "insert-newer":
 			switch v := s.Val.(type) {
 			case User:
 				m.users[ck] = v
@@ -320,7 +334,7 @@ func (s *sess) diff(m *model, checkCallbacks bool) string {
 		}
 	}
 	for _, k := range keys {
-		if _, inModel := m.orders["order/"+k]; !inModel {
+		if _, inModel := m.orders[orderType+"/"+k]; !inModel {
 			if _, ok := s.orders.Get(k); ok {
 				return fmt.Sprintf("order %q is present although it was deleted / reset / never written", k)
 			}
